@@ -5,9 +5,6 @@
 (* of C06 (or EXT) that governs the comparison.                            *)
 EXTENDS IceAgent, Json
 
-PendJson(ps) == {[dst |-> p.dst, uc |-> p.uc] : p \in ps}
-StateJson(st, r, s, n, ps, sd) ==
-  [state |-> st, rc |-> r, sel |-> s, nom |-> n, pend |-> PendJson(ps), started |-> sd]
 
 EdgeRule ==
   IF last'.kind = "request" /\ ~last'.auth THEN "UnauthInert"
@@ -17,11 +14,11 @@ EdgeRule ==
 EdgeRec ==
   [ cfg   |-> [role |-> role, sock |-> sock, lite |-> lite],
     pre   |-> hist,
-    act   |-> hist'[Len(hist')],
+    act   |-> hist'[Len(hist')].a,
     rule  |-> EdgeRule,
-    inert |-> (<<state, rc, sel, nom, pend>> = <<state', rc', sel', nom', pend'>>),
-    from  |-> StateJson(state, rc, sel, nom, pend, started),
-    to    |-> StateJson(state', rc', sel', nom', pend', started') ]
+    inert |-> (<<state, rc, sel, nom, pend, phost>> = <<state', rc', sel', nom', pend', phost'>>),
+    from  |-> Snap(state, rc, sel, nom, pend, phost),
+    to    |-> Snap(state', rc', sel', nom', pend', phost') ]
 
 EmitEdge == PrintT(<<"EDGE", ToJson(EdgeRec)>>)
 NoEmit   == TRUE
